@@ -8,7 +8,12 @@ package main
 // An oracle returns "" (holds), a description of the violation, or c16Skip (outside what it judges).
 
 import (
+	"bufio"
 	"bytes"
+	"encoding/json"
+	"io"
+	"os/exec"
+	"path/filepath"
 	"encoding/xml"
 	"fmt"
 	"math/big"
@@ -767,7 +772,23 @@ func c16ScanJS(b []byte) c16JSInfo {
 		toks = append(toks, tok{tt, string(data)})
 	}
 	var braces []bool // is the open brace an object literal?
+	depth, declDepth := 0, -1 // nesting of ( [ {; nesting at which a var/let/const declaration list is open (-1: none)
 	for i, t := range toks {
+		switch t.tt {
+		case pjs.VarToken, pjs.LetToken, pjs.ConstToken:
+			declDepth = depth
+		case pjs.SemicolonToken:
+			if depth == declDepth {
+				declDepth = -1
+			}
+		case pjs.OpenParenToken, pjs.OpenBracketToken:
+			depth++
+		case pjs.CloseParenToken, pjs.CloseBracketToken, pjs.CloseBraceToken:
+			depth--
+			if depth < declDepth {
+				declDepth = -1
+			}
+		}
 		prev, next := tok{}, tok{}
 		if i > 0 {
 			prev = toks[i-1]
@@ -807,6 +828,10 @@ func c16ScanJS(b []byte) c16JSInfo {
 				pjs.AndToken, pjs.OrToken, pjs.NullishToken, pjs.AddToken:
 				lit = true
 			}
+			if prev.tt == pjs.CommaToken && depth == declDepth {
+				lit = false // `var a=1,{b}=o`: the next binding pattern of a declaration list
+			}
+			depth++
 			braces = append(braces, lit)
 		case pjs.CloseBraceToken:
 			if len(braces) > 0 {
@@ -854,6 +879,59 @@ func c16OracleKeepVarNames(in, out c16JSInfo) string {
 	}
 	return ""
 }
+
+// ---------- V8 syntax check (tools/jscheck.mjs: parse only, nothing is executed) ----------
+
+type c16Node struct {
+	cmd *exec.Cmd
+	in  io.WriteCloser
+	out *bufio.Scanner
+}
+
+func c16StartNode() (*c16Node, error) {
+	cmd := exec.Command("node", "--experimental-vm-modules", "--no-warnings", filepath.Join(h.Root(), "tools", "jscheck.mjs"))
+	in, err := cmd.StdinPipe()
+	if err != nil {
+		return nil, err
+	}
+	outp, err := cmd.StdoutPipe()
+	if err != nil {
+		return nil, err
+	}
+	if err := cmd.Start(); err != nil {
+		return nil, err
+	}
+	sc := bufio.NewScanner(outp)
+	sc.Buffer(make([]byte, 1<<20), 1<<28)
+	return &c16Node{cmd, in, sc}, nil
+}
+
+func (j *c16Node) stop() {
+	j.in.Close()
+	j.cmd.Wait()
+}
+
+// parses: (ok, error message, judged)
+func (j *c16Node) parses(src []byte) (bool, string, bool) {
+	req, _ := json.Marshal(map[string]any{"id": 1, "src": string(src)})
+	if _, err := j.in.Write(append(req, '\n')); err != nil || !j.out.Scan() {
+		return true, "", false
+	}
+	var r struct {
+		Ok  bool
+		Err string
+	}
+	if json.Unmarshal(j.out.Bytes(), &r) != nil {
+		return true, "", false
+	}
+	return r.Ok, r.Err, true
+}
+
+// trigger of K-C16-5: a function declaration directly in a block (not a function body) next to a `var` declaration of
+// that block — the shapes `{function f(){}var …}` / `{var …;function f(){}}`
+var c16BlockFnRe = regexp.MustCompile(`\{function \w+\(\)\{\}var |\{var [^;{}]*;function \w+\(\)\{\}\}`)
+
+func c16TrigBlockFn(doc []byte) bool { return c16BlockFnRe.Match(doc) }
 
 // ---------- SVG / XML ----------
 
@@ -1025,6 +1103,8 @@ func c16SelfTest() error {
 		{"js/version-template", func() string { return first(c16OracleVersion(c16ScanJS([]byte(`x="a\nb"`)), c16ScanJS([]byte("x=`a\nb`")), 5, true)) }, func() string { return "" }},
 		{"js/version-shorthand-fixed", func() string { return first(c16OracleVersion(c16ScanJS([]byte("x={a:a,b:b}")), c16ScanJS([]byte("x={a,b}")), 5, false)) },
 			func() string { return first(c16OracleVersion(c16ScanJS([]byte("x={a:a,b:b};if(c){d}")), c16ScanJS([]byte("x={a:a,b:b};if(c){d}")), 5, false)) }},
+		{"js/version-pattern", func() string { return first(c16OracleVersion(c16ScanJS([]byte("x={a:a}")), c16ScanJS([]byte("var y=1,z={a}")), 5, false)) },
+			func() string { return first(c16OracleVersion(c16ScanJS([]byte("var {a}=o;var b=1")), c16ScanJS([]byte("var b=1,{a}=o")), 5, false)) }},
 		{"js/keepvarnames", func() string { return c16OracleKeepVarNames(c16ScanJS([]byte("function f(alpha){return alpha}")), c16ScanJS([]byte("function f(e){return e}"))) },
 			func() string { return c16OracleKeepVarNames(c16ScanJS([]byte("function f(alpha){return alpha}")), c16ScanJS([]byte("function f(alpha){return alpha}"))) }},
 	}
@@ -1318,7 +1398,27 @@ func (g c16Gen) js() string {
 	var b strings.Builder
 	for i, n := 0, 1+g.r.Intn(5); i < n; i++ {
 		a, c, d := id(), id(), id()
-		switch g.r.Intn(16) {
+		switch g.r.Intn(19) {
+		case 16, 17, 18:
+			// a destructuring `var` next to a block that declares the same name lexically and holds the hoist target
+			// hoisting is decided by byte cost: only short names are cheap enough, so this shape uses one-letter names
+			n := g.pick("a", "b", "k", "x")
+			o := g.pick("o", "w")
+			pat := g.pick("["+n+"]", "["+n+",y]", "["+n+"=1]", "[..."+n+"]", "{"+n+"}", "{z:"+n+"}", "{"+n+"=2}", "[{"+n+"}]", "{z:["+n+"]}", "[,"+n+"]")
+			// (a block-level `function a(){}` is the open known finding K-C16-5: not generated, see c16TrigBlockFn)
+			lex := g.pick("let "+n+"=1;", "const "+n+"=1;", "class "+n+"{}", "let ["+n+"]=[1];", "const {"+n+"}={};")
+			vars := "var p=2,q=3,r=4,u=5" + g.pick("", ",m=6", ",m=6,j=7") + ";"
+			blk := g.pick("{"+lex+vars+"g("+n+",p,q,r,u)}", "if("+o+"){"+lex+vars+"g("+n+")}", "for(;;){"+lex+vars+"break}", "try{"+lex+vars+"}catch(e){}",
+				"{"+vars+lex+"}", "{{"+lex+"}"+vars+"}", "for(var i=0,t=2,s=0;i<t;i++){"+lex+"s+="+n+"}")
+			body := "var " + pat + "=" + o + ";" + blk + "g(" + n + ");"
+			if g.r.Bool() {
+				body = blk + "var " + pat + "=" + o + ";g(" + n + ");"
+			}
+			if g.r.Chance(70) {
+				b.WriteString("function f" + a + "(" + o + "){" + body + "return " + n + "}")
+			} else {
+				b.WriteString(body)
+			}
 		case 0:
 			b.WriteString("function " + a + "(" + c + "," + d + "){var local" + c + "=" + c + "+" + d + ";return function(inner){return local" + c + "+inner}}")
 		case 1:
